@@ -85,7 +85,7 @@ static ssize_t rd(int fd, char *buf, size_t len)
   return (ssize_t) w;
 }
 
-static unsigned char stream0(unsigned int i) { return i < p0 ? xinit[BN - p0 + i] : src[i - p0]; }
+static unsigned char stream0(unsigned int i) { return i < p0 ? xinit[BN - p0 + i] : i - p0 < SMAX ? src[i - p0] : 0; }
 
 void vmain(void)
 {
